@@ -25,6 +25,7 @@ import (
 	"github.com/nspcc-dev/neo-go/pkg/core/interop/iterator"
 	"github.com/nspcc-dev/neo-go/pkg/core/mempool"
 	"github.com/nspcc-dev/neo-go/pkg/core/mempoolevent"
+	"github.com/nspcc-dev/neo-go/pkg/core/native/nativenames"
 	"github.com/nspcc-dev/neo-go/pkg/core/state"
 	"github.com/nspcc-dev/neo-go/pkg/core/storage"
 	"github.com/nspcc-dev/neo-go/pkg/core/transaction"
@@ -42,6 +43,7 @@ import (
 	"github.com/nspcc-dev/neo-go/pkg/util"
 	"github.com/nspcc-dev/neo-go/pkg/vm"
 	"github.com/nspcc-dev/neo-go/pkg/vm/stackitem"
+	"github.com/nspcc-dev/neo-go/pkg/vm/vmstate"
 	"github.com/nspcc-dev/neo-go/pkg/wallet"
 	"go.uber.org/zap"
 )
@@ -284,6 +286,44 @@ func (c *Chain) ProduceBlock(txs []*transaction.Transaction) *block.Block {
 		}
 	}
 	return b
+}
+
+// SetCommitteeNEO leaves exactly `amount` NEO for the deployment procedure to
+// hand to the committee and split between the Alphabet contracts: the rest of
+// what genesis put on the validators' account goes to a sink. Harness set-up,
+// done before any member starts.
+func (c *Chain) SetCommitteeNEO(amount int64) {
+	bc := c.bc
+	neoH, err := bc.GetNativeContractScriptHash(nativenames.Neo)
+	must(err)
+	val := c.valAccs[0].ScriptHash()
+	to := DetKey("neo/sink").GetScriptHash()
+	have, _ := bc.GetGoverningTokenBalance(val)
+	give := have.Int64() - amount
+	if give <= 0 {
+		return
+	}
+	script, err := smartcontract.CreateCallWithAssertScript(neoH, "transfer", val, to, give, nil)
+	must(err)
+	tx := transaction.New(script, 1_0000_0000)
+	tx.Nonce = 0x5e70
+	tx.ValidUntilBlock = bc.BlockHeight() + 100
+	tx.NetworkFee = 1_0000_0000
+	tx.Signers = []transaction.Signer{{Account: val, Scopes: transaction.CalledByEntry}}
+	m := smartcontract.GetDefaultHonestNodeCount(c.n)
+	buf := io.NewBufBinWriter()
+	for i := 0; i < m; i++ {
+		sig := c.privs[i].SignHashable(uint32(netmode.UnitTestNet), tx)
+		buf.WriteB(0x0c)
+		buf.WriteB(64)
+		buf.WriteBytes(sig)
+	}
+	tx.Scripts = []transaction.Witness{{InvocationScript: buf.Bytes(), VerificationScript: c.valAccs[0].Contract.Script}}
+	c.ProduceBlock([]*transaction.Transaction{tx})
+	aers, err := bc.GetAppExecResults(tx.Hash(), trigger.Application)
+	if err != nil || len(aers) == 0 || aers[0].VMState != vmstate.Halt {
+		harnessf("NEO set-up transfer failed: %v %v", err, aers)
+	}
 }
 
 // contentKey is a nonce/hash independent canonical key of a transaction.
